@@ -402,7 +402,12 @@ func (b *Bed) Request(c Case) (client.Request, error) {
 
 	add := func(s Step) {
 		if s.N != "" && len(s.Out) > 0 && (s.Kind != "eh" || s.Type == "scripted") {
-			r.Headers = append(r.Headers, [2]string{"X-V-" + s.N, OutcomeHeader(s.Out)})
+			h := OutcomeHeader(s.Out)
+			if h == "panic" { // what the panic carries varies from case to case: a string, an error, net/http's abort value
+				h = []string{"panic", "panicerr", "panicabort"}[(len(c.ID)+len(s.N)+int(c.ID[len(c.ID)-1]))%3] //nolint:mnd
+			}
+
+			r.Headers = append(r.Headers, [2]string{"X-V-" + s.N, h})
 		}
 
 		if s.Cond != "none" {
